@@ -58,6 +58,11 @@ structure Rot2 (α : Type) where
 def Rot2.ofAngle [Scalar α] (t : α) : Rot2 α := ⟨Scalar.cos t, Scalar.sin t⟩
 def Rot2.apply (r : Rot2 α) (v : V2 α) : V2 α := ⟨v.x * r.c - v.y * r.s, v.x * r.s + v.y * r.c⟩
 
+/-- Rust `slice.windows(2)`: the consecutive pairs, each as a two-element list -/
+def windows2 {β : Type} : List β → List (List β)
+  | a :: b :: r => [a, b] :: windows2 (b :: r)
+  | _ => []
+
 /-- Rust `while cond { body }` with an explicit bound on the number of iterations (the translator
     tools/rs2lean.py emits loops in this form; the `T` theorems relate them to the model's recursion) -/
 def whileFuel {σ : Type} : Nat → (σ → Bool) → (σ → σ) → σ → σ
